@@ -23,6 +23,32 @@ static Profile profile_for(const std::string &p) { Profile f;
   else { add(regs); add(param); add(cops); add({OP_EVAL}, 4); add({OP_FATAL}, 1); add({OP_SETVEC, OP_CSETARR, OP_CGETARR, OP_GETVEC}, 2); f.fixtures = false; }    // "all": used by the sanitizer runs
   return f; }
 
+
+// the catalogue a profile initialises from: fixtures only where wanted, vector-bearing solutions over-represented where vectors matter,
+// sod_1d left out of the exit() build. Generation and replay MUST use the same list (operation records index into it).
+static std::vector<std::string> catalogue_for(const std::string &prop, const Profile &pf, int fatal_mode) { std::vector<std::string> use = read_catalogue();
+  if (!pf.fixtures) use.erase(std::remove_if(use.begin(), use.end(), [](const std::string &s) { return s == "masa_test_function" || s == "masa_uninit"; }), use.end());
+  if (prop == "C11" || prop == "C17" || prop == "C10" || prop == "C19") for (int i = 0; i < 5; i++) { use.push_back("cp_normal"); use.push_back("radiation_integrated_intensity"); }
+  if (fatal_mode == 1) use.erase(std::remove(use.begin(), use.end(), std::string("sod_1d")), use.end());
+  return use; }
+
+// Every generated history runs in a forked child: static state inside the library (caches, scratch buffers) cannot leak from one
+// case into the next, so a failing history reproduces from its file in a fresh process, and a crash of the library is attributed to
+// the history that caused it while the parent goes on (and shrinks).
+struct Forked { std::map<std::string, long> cls; std::vector<Failure> fails; std::vector<std::string> trace; int step = 0; long evals = 0; int signal = 0; bool ok = false; };
+static Forked run_forked(const std::vector<Op> &ops, const HistConfig &cfg) { Forked R; int pfd[2]; if (pipe(pfd) != 0) return R; fflush(stderr); pid_t pid = fork();
+  if (pid == 0) { close(pfd[0]); History H; H.cfg = cfg;
+    // the child must never return into rapidcheck: a fatal error escaping the interpreter (e.g. from an audit after the library damaged its own registry) is a failure of this history
+    try { H.run(ops); } catch (int e) { H.fail(cfg.escape_prop.empty() ? "C16" : cfg.escape_prop, "the fatal error (" + std::to_string(e) + ") was raised by a call that is legal at this point of the history: " + (H.trace.empty() ? std::string("?") : H.trace.back())); } catch (...) { H.fail(cfg.escape_prop.empty() ? "C16" : cfg.escape_prop, "an unexpected exception escaped from the library"); }
+    std::string o; o += "S " + std::to_string(H.step) + " " + std::to_string(H.evals) + "\n";
+    for (auto &kv : H.cls) o += "C " + std::to_string(kv.second) + " " + kv.first + "\n"; for (auto &f : H.fails) { std::string m = f.msg; for (auto &ch : m) if (ch == '\n') ch = ' '; o += "F " + f.prop + " " + std::to_string(f.step) + " " + m + "\n"; }
+    for (size_t i = 0; i < H.trace.size() && i < 40; i++) { std::string t = H.trace[i]; for (auto &ch : t) if (ch == '\n') ch = ' '; o += "T " + t + "\n"; } o += "E\n";
+    size_t off = 0; while (off < o.size()) { ssize_t w = write(pfd[1], o.data() + off, o.size() - off); if (w <= 0) break; off += (size_t)w; } close(pfd[1]); _exit(0); }
+  close(pfd[1]); std::string in; char buf[8192]; ssize_t n; while ((n = read(pfd[0], buf, sizeof buf)) > 0) in.append(buf, n); close(pfd[0]); int st = 0; waitpid(pid, &st, 0);
+  if (WIFSIGNALED(st)) R.signal = WTERMSIG(st); else if (WIFEXITED(st) && WEXITSTATUS(st) != 0) R.signal = 1000 + WEXITSTATUS(st);
+  std::istringstream ss(in); std::string l; while (std::getline(ss, l)) { if (l == "E") R.ok = true; else if (l[0] == 'S') { std::istringstream x(l.substr(2)); x >> R.step >> R.evals; } else if (l[0] == 'C') { std::istringstream x(l.substr(2)); long v; x >> v; std::string k; std::getline(x, k); R.cls[k.substr(1)] = v; }
+    else if (l[0] == 'F') { std::istringstream x(l.substr(2)); Failure f; x >> f.prop >> f.step; std::getline(x, f.msg); if (!f.msg.empty()) f.msg = f.msg.substr(1); R.fails.push_back(f); } else if (l[0] == 'T') R.trace.push_back(l.substr(2)); }
+  return R; }
 static Op decode(const std::vector<uint64_t> &r, const Profile &pf, const std::string &prop) { Op o; uint64_t a = r.size() > 0 ? r[0] : 0, b = r.size() > 1 ? r[1] : 0; o.code = pf.codes[a % pf.codes.size()]; o.prec = (a >> 16) & 1; o.n = (a >> 20) & 0xffff;
   o.h = b & 0xff; o.s = (b >> 8) & 0xffff; o.p = (b >> 24) & 0xffff; o.api = (b >> 40) & 0xffff; o.idx = (b >> 56) & 0xff; for (int i = 0; i < 4; i++) o.v[i] = r.size() > (size_t)(2 + i) ? r[2 + i] : 0;
   if (prop == "C15") o.n = o.n - o.n % 3;        // C15 aims at overloads outside the capability set
@@ -43,11 +69,12 @@ static void write_file(const std::string &p, const std::string &t) { std::ofstre
 int main(int argc, char **argv) {
   if (!freopen("/dev/null", "w", stdout)) {}
   if (const char *rf = arg_value(argc, argv, "--replay")) { std::ifstream f(rf); std::stringstream ss; ss << f.rdbuf(); std::vector<Op> ops; std::string prop; if (!history_from_text(ss.str(), ops, prop)) { fprintf(stderr, "not a history file\n"); return 2; }
-    Profile pf = profile_for(prop); History H; H.cfg.catalogue = read_catalogue(); if (!pf.fixtures) H.cfg.catalogue.erase(std::remove_if(H.cfg.catalogue.begin(), H.cfg.catalogue.end(), [](const std::string &s) { return s == "masa_test_function" || s == "masa_uninit"; }), H.cfg.catalogue.end());
-    H.cfg.check_fresh = pf.fresh; H.cfg.audit_every_step = pf.audit; H.cfg.c_interface = true; H.cfg.fatal_mode = atoi(arg_value(argc, argv, "--fatal-mode", "0")); if (H.cfg.fatal_mode == 1) H.cfg.catalogue.erase(std::remove(H.cfg.catalogue.begin(), H.cfg.catalogue.end(), std::string("sod_1d")), H.cfg.catalogue.end()); H.run(ops); for (size_t i = 0; i < H.trace.size(); i++) fprintf(stderr, "  %3zu %s\n", i + 1, H.trace[i].c_str());
+    Profile pf = profile_for(prop); History H; int fm = atoi(arg_value(argc, argv, "--fatal-mode", "0")); H.cfg.catalogue = catalogue_for(prop, pf, fm);
+    H.cfg.check_fresh = pf.fresh; H.cfg.audit_every_step = pf.audit; H.cfg.c_interface = true; H.cfg.fatal_mode = fm; try { H.run(ops); } catch (int e) { H.fail(prop, "the fatal error (" + std::to_string(e) + ") was raised by a call that is legal at this point of the history: " + (H.trace.empty() ? std::string("?") : H.trace.back())); } catch (...) { H.fail(prop, "an unexpected exception escaped from the library"); }
+    for (size_t i = 0; i < H.trace.size(); i++) fprintf(stderr, "  %3zu %s\n", i + 1, H.trace[i].c_str());
     bool mine = false; for (auto &fl : H.fails) { fprintf(stderr, "  FAIL[%s] at step %d: %s\n", fl.prop.c_str(), fl.step, fl.msg.c_str()); if (fl.prop == prop) mine = true; } fprintf(stderr, "REPLAY %s\n", mine ? "violation" : "pass"); return mine ? 1 : 0; }
   if (const char *dir = arg_value(argc, argv, "--replay-many")) {   // Valgrind tier: every saved history in one process; only memory errors matter here
-    std::vector<std::string> cat = read_catalogue(); cat.erase(std::remove_if(cat.begin(), cat.end(), [](const std::string &s) { return s == "masa_test_function" || s == "masa_uninit"; }), cat.end()); int n = 0;
+    std::vector<std::string> cat = catalogue_for("C19", profile_for("C19"), 0); int n = 0;
     for (int i = 0;; i++) { std::ifstream f(std::string(dir) + "/case_" + std::to_string(i) + ".case"); if (!f) break; std::stringstream ss; ss << f.rdbuf(); std::vector<Op> ops; std::string pr; if (!history_from_text(ss.str(), ops, pr)) continue; History H; H.cfg.catalogue = cat; H.cfg.check_fresh = true; H.run(ops); n++; }
     { Quiet q; MASA::masa_verif_reset(); } fprintf(stderr, "replayed %d histories\n", n); return 0; }
   if (const char *el = arg_value(argc, argv, "--exhaustive-len")) {   // C12: every sequence of length <= L over a 9-letter alphabet on 2 handles x 2 solution types, full audit after every step
@@ -76,9 +103,7 @@ int main(int argc, char **argv) {
   std::string prop = arg_value(argc, argv, "--prop", "C11"); uint64_t seed = strtoull(arg_value(argc, argv, "--seed", "1"), 0, 10); int cases = atoi(arg_value(argc, argv, "--cases", "100")); int maxsize = atoi(arg_value(argc, argv, "--maxsize", "100"));
   std::string faildir = arg_value(argc, argv, "--faildir", "."); stats().path = arg_value(argc, argv, "--out", ""); mkdir(faildir.c_str(), 0755); Stats &st = stats();
   int fatal_mode = atoi(arg_value(argc, argv, "--fatal-mode", "0"));
-  Profile pf = profile_for(prop); std::vector<std::string> cat = read_catalogue(); std::vector<std::string> use = cat; if (!pf.fixtures) use.erase(std::remove_if(use.begin(), use.end(), [](const std::string &s) { return s == "masa_test_function" || s == "masa_uninit"; }), use.end());
-  if (fatal_mode == 1) use.erase(std::remove(use.begin(), use.end(), std::string("sod_1d")), use.end());   // exit() build: sod's own fatal error on non-bracketing parameters would end the harness
-  if (prop == "C11" || prop == "C17" || prop == "C10" || prop == "C19") for (int i = 0; i < 5; i++) { use.push_back("cp_normal"); use.push_back("radiation_integrated_intensity"); }   // the only solutions with vector parameters
+  Profile pf = profile_for(prop); std::vector<std::string> cat = read_catalogue(); std::vector<std::string> use = catalogue_for(prop, pf, fatal_mode);
   st.count("catalogue_entries", (long long)cat.size());
   long budget = -1; int failures = 0;
   rc::detail::TestParams tp; tp.seed = mix64(seed ^ 0x5eed); tp.maxSuccess = cases; tp.maxSize = maxsize; rc::detail::TestMetadata md; md.id = prop + ":histories"; md.description = md.id;
@@ -87,7 +112,8 @@ int main(int argc, char **argv) {
     std::vector<Op> ops; for (auto &r : raw) ops.push_back(decode(r, pf, prop));
     write_file(faildir + "/current.case", history_to_text(ops, prop));
     if (dump_n > 0 && (int)st.counters["dumped"] < dump_n && ops.size() >= 5) { write_file(dump_dir + "/case_" + std::to_string(st.counters["dumped"]) + ".case", history_to_text(ops, prop)); st.count("dumped"); }
-    History H; H.cfg.catalogue = use; H.cfg.check_fresh = pf.fresh; H.cfg.audit_every_step = pf.audit; H.cfg.fatal_mode = fatal_mode; H.run(ops);
+    HistConfig cfg; cfg.escape_prop = prop; cfg.catalogue = use; cfg.check_fresh = pf.fresh; cfg.audit_every_step = pf.audit; cfg.fatal_mode = fatal_mode; Forked H = run_forked(ops, cfg);
+    if (H.signal || !H.ok) { Failure f; f.prop = prop; f.step = -1; f.msg = "the library ended the process while executing this history (" + std::string(H.signal >= 1000 ? "exit status " + std::to_string(H.signal - 1000) : "signal " + std::to_string(H.signal)) + ")"; H.fails.push_back(f); st.count("crashed_histories"); }
     st.count("cases"); st.count("steps", H.step); st.count("evaluations", H.step); st.count("evaluator_calls", H.evals);
     for (auto &kv : H.cls) st.count("class:" + kv.first, kv.second); if (ops.size() >= 20) st.count("class:H:length>=20");
     bool nt = nontrivial(prop, H.cls); if (nt) { st.count("class:H:nontrivial"); Hasher h; for (auto &o : ops) h.str(op_to_text(o)); st.distinct.insert(h.h); }
